@@ -129,7 +129,7 @@ PROPS.update({
   "level": "exploration", "design_ref": "DESIGN.md §5 P-C16",
   "technique": "deterministic simulation of the hash-map iteration schedule: the harness is built against a scratch copy of the repository in which a go/packages rewriter routes every map range / maps.Keys / maps.Values through a seam; each input is planned under ascending, descending and seeded shuffled schedules and stdout, exit status and WARNING/ERROR lines must be byte-identical; a failing input is re-run permuting one site at a time to name the culprit function",
   "level_text": "Inputs: every (DEVICE, NETSPOC) pair of the repository's test data for all five device types plus generated tie-heavy ASA/IOS pairs (duplicated / split identical object-groups). K=6 (quick) or 12 (thorough) schedules per input.",
-  "level_note": "Sources of nondeterminism other than map iteration are not permuted (the tool has no goroutines of its own, no randomness, no clock in planning). Generated tie inputs exist for ASA/IOS only; NSX / PAN-OS / Linux rely on the repository's pairs.",
+  "level_note": "Sources of nondeterminism other than map iteration are not permuted (the tool has no goroutines of its own, no randomness, no clock in planning). Generated tie inputs for all five device types plus every (DEVICE, NETSPOC) pair of the repository's test data.",
   "rule": "evaluations = planning runs under a permuted schedule; non-trivial = every input (>=1 map site with >1 element); distinct = hash of input texts",
   "quick": B(3000, 50), "thorough": B(200000, 900),
   "real": ["pkg/drc", "pkg/device (CompareFiles)", "pkg/cisco", "pkg/asa", "pkg/ios", "pkg/linux", "pkg/panos", "pkg/nsx (all compiled from the rewritten scratch copy)"],
